@@ -5,8 +5,9 @@ import MJ.Props.C06
 #print axioms MJ.C06.untouched_falls_through
 #print axioms MJ.C06.child_text_discarded
 #print axioms MJ.C06.extends_terminates
-#print axioms MJ.C06.cycle_is_detected_error
 #print axioms MJ.C06.rendering_terminates
+#print axioms MJ.C06.cycle_is_detected_error
+#print axioms MJ.C06.include_cycle_errors
 #print axioms MJ.C06.double_extends_error
 #print axioms MJ.C06.missing_is_error_not_truncation
 #print axioms MJ.C06.include_first_existing
